@@ -284,6 +284,98 @@ fn sc_udp_unresolved(rig: &mut Rig, v6: bool, variant: usize) {
 }
 
 // ------------------------------------------------------------------------------------------
+// 802.15.4: ordered pairs of datagrams over all IPHC destination forms, fragmented or not
+// ------------------------------------------------------------------------------------------
+
+/// neighbors whose link-local addresses take the 16-bit and the 64-bit inline IPHC form (their
+/// interface identifiers are NOT derived from their link-layer addresses)
+pub const PEER16_IP: [u8; 16] = [0xfe, 0x80, 0, 0, 0, 0, 0, 0, 0, 0, 0, 0xff, 0xfe, 0, 0x12, 0x34];
+pub const PEER16_EXT: [u8; 8] = [2, 0, 0, 0, 0, 0, 0, 0x16];
+pub const PEER64_IP: [u8; 16] = [0xfe, 0x80, 0, 0, 0, 0, 0, 0, 0xaa, 0xaa, 0xbb, 0xbb, 0xcc, 0xcc, 0xdd, 0xdd];
+pub const PEER64_EXT: [u8; 8] = [2, 0, 0, 0, 0, 0, 0, 0x64];
+
+/// (name, destination, neighbor to (re-)teach before sending: (its address, its link address,
+/// which of our addresses it solicits))
+fn pair_destinations() -> Vec<(&'static str, [u8; 16], Option<([u8; 16], [u8; 8], [u8; 16])>)> {
+    vec![
+        ("mcast-8bit ff02::1", ALL_NODES6, None),
+        ("mcast-32bit ff05::1:3", GROUP6B, None),
+        ("mcast-48bit ff02::1:ff00:2", solicited(&PEER6), None),
+        ("mcast-inline ff0e:1::1", [0xff, 0x0e, 0, 1, 0, 0, 0, 0, 0, 0, 0, 0, 0, 0, 0, 1], None),
+        ("ll-elided fe80::2", PEER6, Some((PEER6, PEER_EXT, IFACE6))),
+        ("ll-16bit fe80::ff:fe00:1234", PEER16_IP, Some((PEER16_IP, PEER16_EXT, IFACE6))),
+        ("ll-64bit fe80::aaaa:bbbb:cccc:dddd", PEER64_IP, Some((PEER64_IP, PEER64_EXT, IFACE6))),
+        ("global fd00::2", PEER6_ULA, Some((PEER6_ULA, PEER_EXT, IFACE6_ULA))),
+    ]
+}
+
+fn lowpan_only(m: Medium, v6: bool, _v: usize) -> Option<Tweak> {
+    if !v6 || m != Medium::Ieee802154 {
+        return None;
+    }
+    Some(addrs_for(true))
+}
+
+/// variant = the FIRST datagram of the pair (destination form x {one frame, fragmented}); the
+/// scenario sends (first, second) for every second datagram of the same 16. Every frame goes
+/// through the monitor, and every complete UDP datagram the monitor decodes must be the one
+/// that was handed to the socket (destination, ports, length): a compressed header that decodes
+/// to something else is not the packet it claims to be.
+fn sc_lowpan_pairs(rig: &mut Rig, _v6: bool, variant: usize) {
+    let dsts = pair_destinations();
+    let h = udp_socket(rig, 7000, None);
+    let item = |i: usize| -> (usize, usize) { (i / 2, if i % 2 == 0 { 10 } else { 200 }) };
+    let mut dport = 9000u16;
+    let mut send = |rig: &mut Rig, i: usize| {
+        let (d, n) = item(i);
+        let (name, dst, teach) = &dsts[d];
+        if let Some((ip, ext, target)) = teach {
+            // the neighbor speaks first (again: the neighbor cache may be small)
+            let f = rig.ns_frame(ip, &PEER_MAC, *ext, target, true, false);
+            rig.inject(f);
+        }
+        dport += 1;
+        let mark = rig.log.len();
+        let r = rig.sockets.get_mut::<udp::Socket>(h).send_slice(&pat(n, i as u8), IpEndpoint::new(ipa(dst), dport));
+        rig.note(|| format!("udp send {} octets to {} port {} -> {:?}", n, name, dport, r));
+        rig.settle();
+        let want = crate::wirecheck::Addr::V6(*dst);
+        let mut bad = vec![];
+        for rec in &rig.log[mark..] {
+            for (src, got_dst, sp, dp, len) in &rec.verdict.udp_seen {
+                if *sp != 7000 {
+                    continue;
+                }
+                if *got_dst != want || *dp != dport || *len != n {
+                    bad.push((
+                        "C10/encoding/6lowpan/decompressed-datagram-differs-from-the-one-sent".to_string(),
+                        format!(
+                            "the socket was given {} octets for {} port {}, the frame(s) decode to {} octets from {} port {} to {} port {} | last frame[{}] {} ({})",
+                            n,
+                            want,
+                            dport,
+                            len,
+                            src,
+                            sp,
+                            got_dst,
+                            dp,
+                            rec.frame.len(),
+                            crate::sim::hex(&rec.frame),
+                            rec.verdict.shape
+                        ),
+                    ));
+                }
+            }
+        }
+        rig.extra_findings.extend(bad);
+    };
+    for second in 0..2 * dsts.len() {
+        send(rig, variant);
+        send(rig, second);
+    }
+}
+
+// ------------------------------------------------------------------------------------------
 // ICMP
 // ------------------------------------------------------------------------------------------
 
@@ -1094,6 +1186,7 @@ fn v6_only(m: Medium, v6: bool, v: usize) -> Option<Tweak> {
 pub fn scenarios() -> Vec<Scenario> {
     vec![
         Scenario { name: "udp-sizes", variants: 12, setup: std_setup, run: sc_udp_sizes },
+        Scenario { name: "lowpan-datagram-pairs", variants: 16, setup: lowpan_only, run: sc_lowpan_pairs },
         Scenario { name: "udp-unresolved-neighbor", variants: 2, setup: linked_only, run: sc_udp_unresolved },
         Scenario { name: "icmp-socket-echo-request", variants: 2, setup: std_setup, run: sc_icmp_echo_out },
         Scenario { name: "echo-request-in", variants: 6, setup: alias_last_echo, run: sc_echo_in },
